@@ -3,7 +3,7 @@ from . import pipeline_common as pc
 from ..common import Verdict, run_shards, seed, tier
 
 PROP = "C01"
-N = {"quick": 6000, "thorough": 150000}
+N = {"quick": 15000, "thorough": 200000}
 
 
 def run_case(case):
